@@ -319,7 +319,9 @@ func c19Eligibility(sc *scenario) mc.Harness {
 		{"ln-exec", "symlink", 0, "T/exec"}, {"ln-noexec", "symlink", 0, "T/noexec"}, {"ln-dir", "symlink", 0, "T/dir"}, {"ln-dangling", "symlink", 0, "T/missing"}, {".ln-hidden", "symlink", 0, "T/exec"},
 		{"subdir", "dir", 0755, ""}, {"fifo", "fifo", 0755, ""},
 	}
-	dirModes := []os.FileMode{0755, 0775, 0777, 0757, 0700, 0702}
+	// (the last ones carry the sticky / set-group-id / set-user-id bit: a world-writable directory
+	// stays world-writable whatever else is set)
+	dirModes := []os.FileMode{0755, 0775, 0777, 0757, 0700, 0702, 0777 | os.ModeSticky, 0755 | os.ModeSticky, 0757 | os.ModeSticky, 0777 | os.ModeSetgid, 0775 | os.ModeSetgid, 0777 | os.ModeSetuid, 0702 | os.ModeSticky | os.ModeSetgid}
 	// the variants: every single entry and every pair, under every directory mode
 	type variant struct {
 		mode os.FileMode
@@ -390,7 +392,7 @@ func c19Eligibility(sc *scenario) mc.Harness {
 		for _, i := range vr.es {
 			e := entries[i]
 			desc = append(desc, fmt.Sprintf("%s(%s,%o)", e.name, e.kind, e.mode))
-			want := vr.mode&02 == 0 && !strings.HasPrefix(e.name, ".")
+			want := vr.mode.Perm()&02 == 0 && !strings.HasPrefix(e.name, ".")
 			switch e.kind {
 			case "file":
 				want = want && e.mode&0111 != 0
@@ -404,7 +406,7 @@ func c19Eligibility(sc *scenario) mc.Harness {
 				if want {
 					k = "eligible-hook-not-executed"
 				}
-				v = append(v, mc.Viol{Key: k + ":" + e.kind, Desc: fmt.Sprintf("hooks directory mode %o with entries %v: %s executed=%v, eligible=%v", vr.mode, desc, e.name, got[e.name], want)})
+				v = append(v, mc.Viol{Key: k + ":" + e.kind, Desc: fmt.Sprintf("hooks directory mode %v with entries %v: %s executed=%v, eligible=%v", vr.mode, desc, e.name, got[e.name], want)})
 			}
 		}
 		return v
@@ -418,7 +420,7 @@ func c19Eligibility(sc *scenario) mc.Harness {
 			}
 		}
 		sort.Strings(g)
-		return fmt.Sprintf("variant %d mode %o: %v", cur, variants[cur].mode, g)
+		return fmt.Sprintf("variant %d mode %v: %v", cur, variants[cur].mode, g)
 	}
 	h.Cleanup = func() { W = nil }
 	// the explorer runs one harness; iterate the variants through a wrapper
